@@ -211,6 +211,19 @@ def h_group_info(r):
     return _iq_result(r, "%s@g.us" % g[1]["id"], [g])
 
 
+def h_groups_list(r):
+    seen, groups = set(), []
+    for _ in range(r.randint(0, 4)):
+        g = _group_node(r, typed=True)
+        if r.random() < 0.3:
+            g = (g[0], g[1], [], None)
+        if g[1]["id"] in seen:
+            continue
+        seen.add(g[1]["id"])
+        groups.append(g)
+    return _iq_result(r, "g.us", [("groups", {}, groups, None)])
+
+
 def h_add_success(r):
     return _iq_result(r, gen.jid(r, True), [("add", {"type": "success", "participant": p[1]["jid"]}, [], None) for p in _participants(r)])
 
@@ -331,6 +344,7 @@ HAND = {
     "identity_change": ("yowsup.layers.axolotl.protocolentities", "IdentityChangeEncryptNotification", h_identity_change),
     "contacts_sync": ("yowsup.layers.protocol_contacts.protocolentities", "ContactsSyncNotificationProtocolEntity", h_contacts_sync),
     "group_info_result": ("yowsup.layers.protocol_groups.protocolentities", "InfoGroupsResultIqProtocolEntity", h_group_info),
+    "groups_list_result": ("yowsup.layers.protocol_groups.protocolentities", "ListGroupsResultIqProtocolEntity", h_groups_list),
     "participants_add_success": ("yowsup.layers.protocol_groups.protocolentities", "SuccessAddParticipantsIqProtocolEntity", h_add_success),
     "participants_remove_success": ("yowsup.layers.protocol_groups.protocolentities", "SuccessRemoveParticipantsIqProtocolEntity", h_remove_success),
     "participants_add_failure": ("yowsup.layers.protocol_groups.protocolentities", "FailureAddParticipantsIqProtocolEntity", h_add_failure),
